@@ -96,7 +96,7 @@ def shrink(exe, text, nprocs, wd, still_fails, env=None, budget=60):
         if not steps or steps[-1][0] != s:
             steps.append((s, []))
         steps[-1][1].append(l)
-    structural = ('create', 'open', 'close', 'enddef', 'redef', 'def_dim', 'def_var', 'begin_indep', 'end_indep', 'attach', 'detach')
+    structural = ('create', 'open', 'close', 'enddef', 'redef', 'def_dim', 'def_var', 'begin_indep', 'end_indep', 'attach', 'detach', 'barrier', 'sync')
 
     def keep(st):
         return any(l.split()[2] in structural for l in st[1])
